@@ -50,7 +50,10 @@ pub fn permute(reg: &PortableRegistry, perm: &[u32]) -> PortableRegistry {
         slots[m(old) as usize] = Some(t);
     }
     PortableRegistry {
-        types: slots.into_iter().map(|t| t.expect("permutation is a bijection")).collect(),
+        types: slots
+            .into_iter()
+            .map(|t| t.expect("permutation is a bijection"))
+            .collect(),
     }
 }
 
@@ -77,7 +80,10 @@ fn observe(reg: &PortableRegistry, back: &[u32], sp: &SettingsSpec) -> Obs {
         GenOutcome::Panic(p) => format!("PANIC({})", truncate(&p, 60)),
     };
     let mut r2 = reg.clone();
-    let ok = matches!(guarded(|| scale_typegen::utils::ensure_unique_type_paths(&mut r2)), Ok(Ok(())));
+    let ok = matches!(
+        guarded(|| scale_typegen::utils::ensure_unique_type_paths(&mut r2)),
+        Ok(Ok(()))
+    );
     let mut groups: BTreeMap<String, BTreeSet<u32>> = BTreeMap::new();
     if ok {
         for t in &r2.types {
@@ -131,7 +137,16 @@ fn item_tokens(module: &str) -> BTreeMap<String, String> {
     let mut out = BTreeMap::new();
     if let Ok(em) = parse_emitted(module) {
         for (p, it) in &em.items {
-            out.insert(p.join("::"), format!("{:?}|{:?}|{:?}|{:?}", it.generics, it.derives(), it.attrs, it.kind_string()));
+            out.insert(
+                p.join("::"),
+                format!(
+                    "{:?}|{:?}|{:?}|{:?}",
+                    it.generics,
+                    it.derives(),
+                    it.attrs,
+                    it.kind_string()
+                ),
+            );
         }
     }
     out
@@ -149,7 +164,13 @@ impl KindString for crate::interp::Item {
                 .iter()
                 .map(|x| {
                     let ty = &x.ty;
-                    format!("{:?}:{}:{}:{:?}", x.name, squash(&quote::quote!(#ty).to_string()), x.compact, x.attrs)
+                    format!(
+                        "{:?}:{}:{}:{:?}",
+                        x.name,
+                        squash(&quote::quote!(#ty).to_string()),
+                        x.compact,
+                        x.attrs
+                    )
                 })
                 .collect();
             match fs {
@@ -162,7 +183,10 @@ impl KindString for crate::interp::Item {
             ItemKind::Struct(fs) => format!("struct{}", f(fs)),
             ItemKind::Enum(vs) => format!(
                 "enum[{}]",
-                vs.iter().map(|v| format!("{}={:?}{}{:?}", v.name, v.index, f(&v.fields), v.docs)).collect::<Vec<_>>().join(",")
+                vs.iter()
+                    .map(|v| format!("{}={:?}{}{:?}", v.name, v.index, f(&v.fields), v.docs))
+                    .collect::<Vec<_>>()
+                    .join(",")
             ),
         }
     }
@@ -173,8 +197,10 @@ pub fn check_case(c: &PermCase, full_up_to: usize, ctx: &mut Ctx) {
     let n = reg.types.len();
     let mut sp = spec();
     for (i, p) in c.rec.iter().enumerate() {
-        sp.derives_for.push((p.clone(), vec![format!("::r::D{i}")], true));
-        sp.attrs_for.push((p.clone(), vec![format!("#[r{i}]")], true));
+        sp.derives_for
+            .push((p.clone(), vec![format!("::r::D{i}")], true));
+        sp.attrs_for
+            .push((p.clone(), vec![format!("#[r{i}]")], true));
     }
     let ident: Vec<u32> = (0..n as u32).collect();
     let canon = observe(&reg, &ident, &sp);
@@ -191,7 +217,12 @@ pub fn check_case(c: &PermCase, full_up_to: usize, ctx: &mut Ctx) {
         }
         let o = observe(&preg, &back, &sp);
         if o.module != canon.module {
-            let i = o.module.chars().zip(canon.module.chars()).position(|(x, y)| x != y).unwrap_or(0);
+            let i = o
+                .module
+                .chars()
+                .zip(canon.module.chars())
+                .position(|(x, y)| x != y)
+                .unwrap_or(0);
             let lo = i.saturating_sub(60);
             ctx.violation(
                 format!(
@@ -244,7 +275,10 @@ pub fn check_case(c: &PermCase, full_up_to: usize, ctx: &mut Ctx) {
                 }
             }
         }
-        ctx.note("permutation states (Cayley graph vertices)", seen.len() as u64);
+        ctx.note(
+            "permutation states (Cayley graph vertices)",
+            seen.len() as u64,
+        );
         ctx.note("permutation transitions (adjacent transpositions)", edges);
     } else {
         // generators only: all transpositions, all rotations, reversal
@@ -260,8 +294,14 @@ pub fn check_case(c: &PermCase, full_up_to: usize, ctx: &mut Ctx) {
             perms.push((0..n).map(|i| ((i + r) % n) as u32).collect());
         }
         perms.push(ident.iter().rev().copied().collect());
-        ctx.note("permutation states (generators: transpositions, rotations, reversal)", perms.len() as u64);
-        ctx.note("permutation transitions (adjacent transpositions)", perms.len() as u64);
+        ctx.note(
+            "permutation states (generators: transpositions, rotations, reversal)",
+            perms.len() as u64,
+        );
+        ctx.note(
+            "permutation transitions (adjacent transpositions)",
+            perms.len() as u64,
+        );
         for p in perms {
             check_perm(&p, ctx);
         }
@@ -317,8 +357,14 @@ pub fn check_case(c: &PermCase, full_up_to: usize, ctx: &mut Ctx) {
             // descriptions and example validity of retained ids
             for (old, new) in &map {
                 ctx.exec(2);
-                let d_full = guarded(|| scale_typegen_description::type_description(*old, &reg, false).map_err(|e| format!("{e}")));
-                let d_sub = guarded(|| scale_typegen_description::type_description(*new, &sub, false).map_err(|e| format!("{e}")));
+                let d_full = guarded(|| {
+                    scale_typegen_description::type_description(*old, &reg, false)
+                        .map_err(|e| format!("{e}"))
+                });
+                let d_sub = guarded(|| {
+                    scale_typegen_description::type_description(*new, &sub, false)
+                        .map_err(|e| format!("{e}"))
+                });
                 if d_full != d_sub {
                     ctx.violation(
                         "C17/restriction/description-differs",
@@ -327,8 +373,12 @@ pub fn check_case(c: &PermCase, full_up_to: usize, ctx: &mut Ctx) {
                         size,
                     );
                 }
-                let v_full = guarded(|| scale_typegen_description::scale_value_from_seed(*old, &reg, 1).map_err(|_| ()));
-                let v_sub = guarded(|| scale_typegen_description::scale_value_from_seed(*new, &sub, 1).map_err(|_| ()));
+                let v_full = guarded(|| {
+                    scale_typegen_description::scale_value_from_seed(*old, &reg, 1).map_err(|_| ())
+                });
+                let v_sub = guarded(|| {
+                    scale_typegen_description::scale_value_from_seed(*new, &sub, 1).map_err(|_| ())
+                });
                 if v_full != v_sub {
                     ctx.violation(
                         "C17/restriction/example-differs",
@@ -362,13 +412,28 @@ pub fn run(tier: &str, seed: u64) -> i32 {
             });
         }
     }
+    let mut bounds: Vec<(&str, usize)> = vec![("D-arms", 0)];
+    bounds.push(("D-generic(coincidence-free)", cases.len()));
     // D-generic, coincidence-free
     let d = DGeneric {
         max_fields: 2,
         max_insts: 2,
         include_cf3: false,
-        body_forms: if thorough { ALL_BODY_FORMS.to_vec() } else { vec![BodyForm::Named] },
-        param_forms: if thorough { ALL_PARAM_FORMS.to_vec() } else { vec![ParamForm::One, ParamForm::Two, ParamForm::ConfigSkipped, ParamForm::BitsSO] },
+        body_forms: if thorough {
+            ALL_BODY_FORMS.to_vec()
+        } else {
+            vec![BodyForm::Named]
+        },
+        param_forms: if thorough {
+            ALL_PARAM_FORMS.to_vec()
+        } else {
+            vec![
+                ParamForm::One,
+                ParamForm::Two,
+                ParamForm::ConfigSkipped,
+                ParamForm::BitsSO,
+            ]
+        },
     };
     let (all, _, _) = enumerate(&d, if thorough { 3 } else { 2 }, 3_000_000);
     for (_, s) in &all {
@@ -376,12 +441,20 @@ pub fn run(tier: &str, seed: u64) -> i32 {
             continue;
         }
         let prog = s.program();
-        if s.insts.iter().any(|a| coincidence(&prog.defs[G_D], a, &prog).is_err()) {
+        if s.insts
+            .iter()
+            .any(|a| coincidence(&prog.defs[G_D], a, &prog).is_err())
+        {
             continue;
         }
         // at least two instantiations or unused parameters are what order could influence
-        cases.push(PermCase { prog, perm: None, rec: vec![] });
+        cases.push(PermCase {
+            prog,
+            perm: None,
+            rec: vec![],
+        });
     }
+    bounds.push(("D-family", cases.len()));
     // D-family (twins carry equal docs by construction)
     let f = DFamily {
         max_members: 2,
@@ -399,6 +472,10 @@ pub fn run(tier: &str, seed: u64) -> i32 {
             rec: vec![],
         });
     }
+    bounds.push((
+        "D-graph (plain, and with two recursive-derive roots whose closures overlap)",
+        cases.len(),
+    ));
     // D-graph
     let g = quick_graph(if thorough { 3 } else { 2 });
     let (all, _, _) = enumerate(&g, g.max_edges as u32, 3_000_000);
@@ -411,6 +488,11 @@ pub fn run(tier: &str, seed: u64) -> i32 {
         // two recursive roots (every pair of nodes): their closures overlap in the shared descendants
         for i in 0..s.nodes.len() {
             for j in (i + 1)..s.nodes.len() {
+                // only roots whose closures overlap: otherwise the order in which the roots are walked cannot matter
+                let (ri, rj) = (s.reach(i), s.reach(j));
+                if !ri.iter().zip(&rj).any(|(a, b_)| *a && *b_) {
+                    continue;
+                }
                 cases.push(PermCase {
                     prog: s.program(),
                     perm: None,
@@ -420,18 +502,41 @@ pub fn run(tier: &str, seed: u64) -> i32 {
         }
     }
     if std::env::var("VERIF_TIMING").is_ok() {
-        eprintln!("  cases built: {} in {:.1}s", cases.len(), report.started.elapsed().as_secs_f64());
+        eprintln!(
+            "  cases built: {} in {:.1}s",
+            cases.len(),
+            report.started.elapsed().as_secs_f64()
+        );
     }
-    let mut st = sweep(
-        &format!("D-perm(D-arms + D-generic(coincidence-free) + D-family + D-graph registries; all n! permutations for n <= {full_up_to} (Cayley graph of adjacent transpositions), transpositions/rotations/reversal above; every single-id and (n <= 8) pair closure)"),
-        &cases,
-        Duration::from_secs(if thorough { 1800 } else { 150 }),
-        |c| json!({"program": c.prog.to_source()}),
-        |c, ctx| check_case(c, full_up_to, ctx),
-    );
-    st.states = st.notes.iter().filter(|(k, _)| k.contains("states")).map(|(_, v)| *v).sum::<u64>().max(st.states);
-    st.transitions = st.notes.iter().filter(|(k, _)| k.contains("transitions")).map(|(_, v)| *v).sum::<u64>().max(1);
-    report.add(st);
+    bounds.push(("", cases.len()));
+    for w in bounds.windows(2) {
+        let (name, lo) = w[0];
+        let hi = w[1].1;
+        let mut st = sweep(
+            &format!("D-perm({name} registries; all n! permutations for n <= {full_up_to} (Cayley graph of adjacent transpositions), transpositions/rotations/reversal above; every single-id and (n <= 8) pair closure)"),
+            &cases[lo..hi],
+            Duration::from_secs(if thorough { 900 } else { 150 }),
+            |c| json!({"program": c.prog.to_source()}),
+            // quick tier: the cases with recursive-derive roots are permuted by the generators only (every
+            // transposition - so also the one exchanging the two roots - every rotation, the reversal)
+            |c, ctx| check_case(c, if !thorough && !c.rec.is_empty() { 0 } else { full_up_to }, ctx),
+        );
+        st.states = st
+            .notes
+            .iter()
+            .filter(|(k, _)| k.contains("states"))
+            .map(|(_, v)| *v)
+            .sum::<u64>()
+            .max(st.states);
+        st.transitions = st
+            .notes
+            .iter()
+            .filter(|(k, _)| k.contains("transitions"))
+            .map(|(_, v)| *v)
+            .sum::<u64>()
+            .max(1);
+        report.add(st);
+    }
     // Polkadot: generators only
     let reg = crate::run::polkadot_registry();
     let n = reg.types.len();
@@ -475,7 +580,8 @@ pub fn run(tier: &str, seed: u64) -> i32 {
             } else if o.dedup_partition != canon.dedup_partition {
                 ctx.violation(
                     "C17/permutation/dedup-groups/polkadot",
-                    "renumbering the Polkadot registry changes the de-duplication groups".to_string(),
+                    "renumbering the Polkadot registry changes the de-duplication groups"
+                        .to_string(),
                     json!({"check": "C17-polkadot", "perm_head": &p[..8.min(p.len())]}),
                     n,
                 );
@@ -490,7 +596,8 @@ pub fn run(tier: &str, seed: u64) -> i32 {
 }
 
 pub fn replay(v: &serde_json::Value) -> Result<Vec<Violation>, String> {
-    let prog: Program = serde_json::from_value(v["case"]["prog"].clone()).map_err(|e| e.to_string())?;
+    let prog: Program =
+        serde_json::from_value(v["case"]["prog"].clone()).map_err(|e| e.to_string())?;
     let perm: Option<Vec<u32>> = serde_json::from_value(v["case"]["perm"].clone()).unwrap_or(None);
     let rec: Vec<String> = serde_json::from_value(v["case"]["rec"].clone()).unwrap_or_default();
     let mut ctx = Ctx::default();
